@@ -45,6 +45,11 @@ def run(tier, seed):
 
 def replay(rep):
     out = Outcome("C18")
+    if rep.get("engine") == "statecache-repeat":
+        for owner, sig, what, rp in E.repeat_call_family()[0]:
+            if rp["kind"] == rep.get("kind") and rp["method"] == rep.get("method"):
+                out.violate(sig, what, rp)
+        return out
     if rep.get("engine") == "statecache":
         for owner, sig, what, rp in E.replay_case(rep):
             if owner == "C18":
